@@ -10,6 +10,10 @@ Tie to the code on every run:
   observation level whole documents through `rtf_encode()` with group_by (1-3 levels) combined with page_by /
                     subline_by on other columns; the data rows of every page are identified by sentinels in
                     the non-group columns, the group cells are read back per page (harness/rtfread.py).
+  histories         (`c13_hist.py`) sequences of evaluations in ONE fresh process over related frames (row
+                    permutations, same key multiset, sub-/supersets, other group_by / layout, same object again),
+                    through `rtf_encode()` and direct service calls; every step judged by the rule for its own
+                    frame; theorems lean/Props/C13hist.lean about `Model.GroupBy.Hist`.
 Oracle (independent of the model being right): the Lean-defined decidable specification
 (`cellViolations`, `fillViolations`, `allLevelsContiguousB`, compiled into the driver) evaluated on the
 implementation's real output; non-contiguous input must raise ValueError, contiguous input must render.
@@ -29,8 +33,15 @@ RULE = ("unit: key sequences over {a,b,null} exhaustively (1 level: length<=6/8 
         "length<=4/5, 3 levels: length<=3/4 with sampled page-start sets) + random sequences up to length 60 "
         "(runs, nulls, empty strings, separator characters, shuffled column order, out-of-range and duplicate "
         "page starts), contiguous and non-contiguous; docs: group_by 1-3 levels x plain/page_by/subline_by on "
-        "other columns x nrow sweeping the page starts over every row position; non-trivial = a valid input "
-        "with >=2 rows in which at least one cell is blanked, distinct by (levels, keys, page starts)")
+        "other columns x nrow sweeping the page starts over every row position; histories (c13_hist.py): sequences "
+        "of 2-9 evaluations in ONE fresh process over RELATED frames (row permutations contiguous and not, same key "
+        "multiset with other values, sub-/supersets of rows, cells exchanged within a level, value<->null<->'', other "
+        "group_by list / column layout on the same rows, the same document / frame object again), valid-then-invalid "
+        "and invalid-then-valid, 1-3 levels, through rtf_encode(), enhance_group_by+restore_page_context on the "
+        "module singleton / one kept instance / a new instance, and validate_data_sorting, every step judged by the "
+        "rule for its own frame; non-trivial = a valid input "
+        "with >=2 rows in which at least one cell is blanked, distinct by (levels, keys, page starts); a history with "
+        ">=2 steps of which one renders, distinct by (routes, verdicts, rows)")
 TRUSTED = [
     "Lean 4.33 kernel; axioms within {propext, Classical.choice, Quot.sound} (audited per theorem on every run)",
     "Lean compiler for the driver executable (compiled evaluation agrees with kernel reduction)",
@@ -43,9 +54,12 @@ MANIFEST = dict(
          "repeat of the hierarchical key that is not a page's first row and shows the original otherwise; other "
          "columns and the column order are untouched; per-page fill-down reconstructs every non-null cell "
          "(the whole column when it has no null); ValueError exactly for non-contiguous keys. The model is tied "
-         "to the code on every run by unit correspondence (exhaustive short key sequences + random) and by "
-         "whole documents read back page by page; the implementation's output is judged by the Lean-defined "
-         "oracle.",
+         "to the code on every run by unit correspondence (exhaustive short key sequences + random), by "
+         "whole documents read back page by page, and by histories of evaluations over related frames in one fresh "
+         "process (the encoder evaluates every document on ONE service object; Props/C13hist: each answer of any "
+         "history is the pure function of its own frame, and remembered acceptances are harmless iff their key "
+         "never identifies an accepted with a rejected table); the implementation's output is judged by the "
+         "Lean-defined oracle, every step of a history by the rule for its own frame.",
     note="Pagination itself (which rows land on which page) is C04's; here the observed page heights are an input. "
          "A null original renders as blank like a suppressed cell, so fill-down cannot (for any renderer) "
          "recover a null below a non-null value; the theorem says exactly that.",
@@ -81,6 +95,15 @@ def _unit_worker(case):
     try:
         svc = GroupingService()
         df = pl.DataFrame({n: pl.Series(n, v, dtype=pl.Utf8) for n, v in case["cols"]})
+    except AttributeError as e:
+        return {"unavailable": f"{type(e).__name__}: {e}"}
+    return _unit_call(svc, df, case)
+
+
+def _unit_call(svc, df, case, frame_json=None):
+    """`enhance_group_by` + `restore_page_context` (one per start list) of the service object `svc` on `df`"""
+    frame_json = frame_json or _frame_json
+    try:
         fn_e, fn_r = svc.enhance_group_by, svc.restore_page_context
     except AttributeError as e:
         return {"unavailable": f"{type(e).__name__}: {e}"}
@@ -92,7 +115,7 @@ def _unit_worker(case):
     try:
         for st in case["starts"]:
             r = fn_r(sup, df, list(case["gb"]), list(st))
-            frames.append(_frame_json(r))
+            frames.append(frame_json(r))
     except Exception as e:  # noqa: BLE001
         return {"error": type(e).__name__, "msg": "restore_page_context: " + str(e)[:200]}
     return {"frames": frames}
@@ -442,10 +465,13 @@ def sweep_docs():
 
 
 def _doc_worker(case):
-    st = docgen.encode(case["spec"])
+    return _observe_doc(docgen.encode(case["spec"]), case["exp"])
+
+
+def _observe_doc(st, exp):
+    """st = the `docgen.encode` triple; → the data rows of every page with their group cells"""
     if st[0] != "ok":
         return dict(status=st[0], exc=st[1], msg=st[2])
-    exp = case["exp"]
     disp = exp["displayed"]
     try:
         doc = rtfread.read(st[1])
@@ -470,6 +496,8 @@ def _doc_worker(case):
                 if int(m.group(1)) != i or disp[j] != f"c{m.group(2)}":
                     problems.append(f"row {i}: sentinel {m.group(0)!r} in column {disp[j]}")
             rows.append(dict(i=i, g=[b.cells[disp.index(g)].text for g in exp["gnames"]]))
+            if exp.get("others"):      # displayed columns not named in group_by whose texts the case knows
+                rows[-1]["o"] = {c: b.cells[disp.index(c)].text for c in exp["others"]}
         if rows:
             pages.append(rows)
     return dict(status="ok", pages=pages, problems=problems)
@@ -510,6 +538,11 @@ def judge_doc(res, case, ob, dr):
     if order != list(range(n)):
         res.fail(case, f"data rows lost, duplicated or reordered: {order}")
         return "rows"
+    for c, want in (exp.get("others") or {}).items():
+        bad = [(r["i"], r["o"][c], want[r["i"]]) for p in ob["pages"] for r in p if r["o"][c] != want[r["i"]]]
+        if bad:
+            res.fail(case, f"column {c!r} is not named in group_by but was changed: (row, rendered, original) {bad[:3]}")
+            return "others"
     if dr["viol_cells"]:
         lv, i, clause = dr["viol_cells"][0]
         res.fail(case, f"level {lv} row {i}: {clause}; pages start at rows {dr['starts']}; rendered "
@@ -558,23 +591,28 @@ def run_docs(res, tier, corpus=()):
 # ------------------------------------------------------------------ entry points
 
 def _load_corpus():
-    unit, docs = [], []
+    unit, docs, hists = [], [], []
     d = common.CORPUS / "C13"
     if d.is_dir():
         import json
         for p in sorted(d.glob("*.json")):
             c = json.loads(p.read_text())
             c = c.get("case", c)
-            (unit if c.get("level") == "unit" else docs).append(c)
-    return unit, docs
+            (unit if c.get("level") == "unit" else hists if c.get("level") == "hist" else docs).append(c)
+    return unit, docs, hists
 
 
 def run(res: common.Result, build) -> int:
     known = {e.get("id") for e in common.known_findings("C13")}
     known_collision = KNOWN_COLLISION in known
-    cu, cd = _load_corpus()
+    cu, cd, ch = _load_corpus()
     run_unit(res, res.tier, known_collision, cu)
     run_docs(res, res.tier, cd)
+    from . import c13_hist
+
+    n_std = len(res.failures)
+    c13_hist.run(res, ch)                       # histories in one process, each step judged by its own frame
+    c13_hist.settle_standalone(res, n_std)
     known_lines = []
     if res.known_hits.get(KNOWN_COLLISION):
         known_lines.append(
@@ -593,6 +631,11 @@ def run(res: common.Result, build) -> int:
                     "a null below a value cannot be told from a blank by any reader). "
                     "C13_rejects_exactly_noncontiguous, C13_postProcess_rejects, C13_contigB_iff: ValueError iff some "
                     "prefix level of the key is not contiguous. C13_pages_are_slices: the pages carry the slices. "
+                    "C13hist_pure / C13hist_step_*: the service object of the code folded over ANY history of calls "
+                    "answers every call as the pure function of its own frame; C13hist_memo_transparent_iff: "
+                    "acceptances remembered under a key change no history iff the key never identifies an accepted "
+                    "with a rejected table (C13hist_exactKey_sound; C13hist_sumKey_unsound / _history: not so for "
+                    "layout + variables + height + sum of row hashes, for any row hash). "
                     "C13_legacy_*: machine-checked witnesses that the code before the repairs "
                     "(fixes/groupby-null-aware-suppression.patch, fixes/groupby-tuple-keys.patch) violates the "
                     "property (D17, D17b, validator key collisions).")
@@ -609,6 +652,10 @@ def replay(payload) -> int:
 
         return crosscorr.replay_cross(crosscorr.LIGHT["C13"], _cross)
     case = payload.get("case") or (payload.get("broken") or [{}])[-1].get("case") or {}
+    if case.get("level") == "hist":
+        from . import c13_hist
+
+        return c13_hist.replay_case({k: v for k, v in case.items() if k != "failing_step"})
     tmp = common.Result("C13", "quick", 0)
     if case.get("level") == "unit":
         c = {k: v for k, v in case.items() if k != "observed"}
